@@ -40,6 +40,23 @@ import (
 
 var calls int64
 
+// functional sanity: how many operations actually succeeded (printed in the `done` line so that the
+// check can tell a scenario that exercises the code from one that only collects errors)
+var (
+	okMu  sync.Mutex
+	okCnt = map[string]int{}
+)
+
+func ok(name string, err error) {
+	okMu.Lock()
+	if err == nil {
+		okCnt[name]++
+	} else {
+		okCnt[name+"!err"]++
+	}
+	okMu.Unlock()
+}
+
 // ---------------------------------------------------------------------------------------------
 // op sets: a scenario is a list of named operations; a round picks a random multiset and runs each
 // in its own goroutine, released together.
@@ -310,7 +327,7 @@ func scenWriter(rng *rand.Rand, rounds int) {
 			{"Writer.WriteMessages", func() {
 				ctx, cancel := context.WithTimeout(context.Background(), 2*time.Second)
 				defer cancel()
-				w.WriteMessages(ctx, append([]kafka.Message(nil), ms...)...)
+				ok("Writer.WriteMessages", w.WriteMessages(ctx, append([]kafka.Message(nil), ms...)...))
 			}},
 			{"Writer.WriteMessages", func() {
 				ctx, cancel := context.WithTimeout(context.Background(), 2*time.Second)
@@ -378,7 +395,8 @@ func readerOps(rng *rand.Rand, r *kafka.Reader, fetchTimeout time.Duration) []op
 		{"Reader.FetchMessage", func() {
 			for k := 0; k < 3; k++ {
 				ctx, cancel := context.WithTimeout(context.Background(), fetchTimeout)
-				r.FetchMessage(ctx)
+				_, err := r.FetchMessage(ctx)
+				ok("Reader.FetchMessage", err)
 				cancel()
 			}
 		}},
@@ -441,13 +459,13 @@ func scenConn(rng *rand.Rand, rounds int) {
 			{"Conn.SetWriteDeadline", func() { c.SetWriteDeadline(time.Now().Add(5 * time.Second)) }},
 			{"Conn.Offset", func() { c.Offset() }},
 			{"Conn.Seek", func() { c.Seek(seekTo, kafka.SeekAbsolute|kafka.SeekDontCheck) }},
-			{"Conn.ReadOffsets", func() { c.ReadOffsets() }},
-			{"Conn.ReadPartitions", func() { c.ReadPartitions("t") }},
+			{"Conn.ReadOffsets", func() { _, _, err := c.ReadOffsets(); ok("Conn.ReadOffsets", err) }},
+			{"Conn.ReadPartitions", func() { _, err := c.ReadPartitions("t"); ok("Conn.ReadPartitions", err) }},
 			{"Conn.ApiVersions", func() { c.ApiVersions() }},
-			{"Conn.WriteMessages", func() { c.WriteMessages(kafka.Message{Value: []byte("w")}) }},
+			{"Conn.WriteMessages", func() { _, err := c.WriteMessages(kafka.Message{Value: []byte("w")}); ok("Conn.WriteMessages", err) }},
 			{"Conn.SetRequiredAcks", func() { c.SetRequiredAcks(1) }},
-			{"Conn.ReadMessage", func() { c.ReadMessage(1 << 16) }},
-			{"Batch.ReadMessage", func() { bt := getBatch(); bt.ReadMessage(); bt.ReadMessage() }},
+			{"Conn.ReadMessage", func() { _, err := c.ReadMessage(1 << 16); ok("Conn.ReadMessage", err) }},
+			{"Batch.ReadMessage", func() { bt := getBatch(); _, err := bt.ReadMessage(); ok("Batch.ReadMessage", err); bt.ReadMessage() }},
 			{"Batch.Read", func() { bt := getBatch(); bt.Read(make([]byte, 2)) }},
 			{"Batch.Err", func() { getBatch().Err() }},
 			{"Batch.Offset", func() { bt := getBatch(); bt.Offset(); bt.HighWaterMark(); bt.Throttle(); bt.Partition() }},
@@ -479,29 +497,43 @@ func scenTransport(rng *rand.Rand, rounds int) {
 		part := rng.Intn(2)
 		idleDelay := time.Duration(rng.Intn(3)) * time.Millisecond
 		ops := []op{
-			{"Client.Metadata", func() { cl.Metadata(ctx, &kafka.MetadataRequest{Topics: []string{"t"}}) }},
+			{"Client.Metadata", func() {
+				_, err := cl.Metadata(ctx, &kafka.MetadataRequest{Topics: []string{"t"}})
+				ok("Client.Metadata", err)
+			}},
 			{"Client.Produce", func() {
-				cl.Produce(ctx, &kafka.ProduceRequest{Topic: "t", Partition: part, RequiredAcks: kafka.RequireOne,
+				res, err := cl.Produce(ctx, &kafka.ProduceRequest{Topic: "t", Partition: part, RequiredAcks: kafka.RequireOne,
 					Records: kafka.NewRecordReader(kafka.Record{Value: kafka.NewBytes([]byte("p"))})})
+				if err == nil {
+					err = res.Error
+				}
+				ok("Client.Produce", err)
 			}},
 			{"Client.Fetch", func() {
 				res, err := cl.Fetch(ctx, &kafka.FetchRequest{Topic: "t", Partition: 0, Offset: 0, MinBytes: 1, MaxBytes: 1 << 16, MaxWait: 10 * time.Millisecond})
+				n := 0
 				if err == nil && res.Records != nil {
 					for {
 						if _, err := res.Records.ReadRecord(); err != nil {
 							break
 						}
+						n++
 					}
 				}
+				if err == nil && n == 0 {
+					err = errors.New("no records")
+				}
+				ok("Client.Fetch", err)
 			}},
 			{"Client.ListOffsets", func() {
-				cl.ListOffsets(ctx, &kafka.ListOffsetsRequest{Topics: map[string][]kafka.OffsetRequest{"t": {kafka.FirstOffsetOf(0), kafka.LastOffsetOf(1)}}})
+				_, err := cl.ListOffsets(ctx, &kafka.ListOffsetsRequest{Topics: map[string][]kafka.OffsetRequest{"t": {kafka.FirstOffsetOf(0), kafka.LastOffsetOf(1)}}})
+				ok("Client.ListOffsets", err)
 			}},
 			{"Transport.CloseIdleConnections", func() { time.Sleep(idleDelay); tr.CloseIdleConnections() }},
 			{"Writer.WriteMessages", func() {
 				w := &kafka.Writer{Addr: kafka.TCP("fake:9092"), Topic: "t", Transport: tr, BatchTimeout: time.Millisecond, RequiredAcks: kafka.RequireOne}
 				c2, cancel := context.WithTimeout(ctx, 2*time.Second)
-				w.WriteMessages(c2, kafka.Message{Value: []byte("tw")})
+				ok("Writer.WriteMessages/transport", w.WriteMessages(c2, kafka.Message{Value: []byte("tw")}))
 				cancel()
 				w.Close()
 			}},
@@ -545,5 +577,12 @@ func main() {
 	}
 	rng := rand.New(rand.NewSource(seed*7919 + h))
 	f(rng, rounds)
-	fmt.Printf("done %s rounds=%d calls=%d\n", os.Args[1], rounds, atomic.LoadInt64(&calls))
+	var oks []string
+	okMu.Lock()
+	for k, v := range okCnt {
+		oks = append(oks, fmt.Sprintf("%s=%d", k, v))
+	}
+	okMu.Unlock()
+	sort.Strings(oks)
+	fmt.Printf("done %s rounds=%d calls=%d ok: %s\n", os.Args[1], rounds, atomic.LoadInt64(&calls), strings.Join(oks, " "))
 }
